@@ -11,29 +11,30 @@ package main
 // the evidence (notes.band_max_ratio). Realistic breaks give ratios of 1e10
 // and more (a wrong entry is O(1), the denominators are O(1e-14)).
 var limits = map[string]float64{
-	"lu-reconstruction":               500,  // 1.43  max|PA-LU| / (k u max(|L||U|))
-	"lu-differential":                 10,   // 0 (blocked and unblocked LU agree bitwise on the pinned tree); unit n u kappa_1 max|f|
-	"solve-residual":                  500,  // 1.65  max|B-op(A)X| / (n u (|A|_inf max|X| + max|B|))
-	"inverse-residual":                500,  // 2     min(|XA-I|,|AX-I|) / (n u |A|_1 |X|_1)
-	"inverse-differential":            10,   // 0.0018 unit n u kappa max|X|
-	"rcond-overestimate":              100,  // 0.16  rcond_est / (rcond_true (n+9)); empirical side of the estimator check
-	"chol-reconstruction":             500,  // 2     max|A-UᵀU| / (n u max|A|)
-	"chol-differential":               10,   // 0.018 unit n u kappa max|U|
-	"pstrf-reconstruction":            500,  // 2
-	"lauum-product":                   200,  // 1.03
-	"lauum-differential":              20,   // 0.072
-	"qr-orthogonality":                1000, // 4     max|QᵀQ-I| / (order u)
-	"qr-reconstruction":               1000, // 3     max|A-QR| / (order u |A|_F)
-	"qr-differential":                 10,   // 0.0093 unit order u kappa
-	"org-matches-reflector-product":   300,  // 1
-	"orm-matches-reflector-product":   200,  // 0.65
-	"larft-triangular-factor":         200,  // 0.70
-	"larfb-matches-reflector-product": 200,  // 0.57
-	"larf-matches-definition":         200,  // 0.63
-	"larfg-orthogonal":                300,  // 1.14
-	"larfg-annihilates":               200,  // 0.85
-	"gels-normal-equations":           500,  // 1.79  max|opᵀ(B-op X)| / (p u |op|_F (|op|_F max|X| + max|B|))
-	"gels-minimum-norm":               50,   // 0.073 unit q u kappa^2 max|X|
-	"gels-differential":               10,   // 0.0036 unit max(p,q) u kappa^2 max|X|
-	"lacn2-underestimate":             100,  // 1     (||A||_1 / est) / n, empirical side of the Dlacn2 check
+	"lu-reconstruction":                 500,  // 1.43  max|PA-LU| / (k u max(|L||U|))
+	"lu-differential":                   10,   // 0 (blocked and unblocked LU agree bitwise on the pinned tree); unit n u kappa_1 max|f|
+	"solve-residual":                    500,  // 1.65  max|B-op(A)X| / (n u (|A|_inf max|X| + max|B|))
+	"inverse-residual":                  500,  // 2     min(|XA-I|,|AX-I|) / (n u |A|_1 |X|_1)
+	"inverse-differential":              10,   // 0.0018 unit n u kappa max|X|
+	"rcond-overestimate":                100,  // 0.16  rcond_est / (rcond_true (n+9)); empirical side of the estimator check
+	"chol-reconstruction":               500,  // 2     max|A-UᵀU| / (n u max|A|)
+	"chol-differential":                 10,   // 0.018 unit n u kappa max|U|
+	"pstrf-reconstruction":              500,  // 2
+	"lauum-product":                     200,  // 1.03
+	"lauum-differential":                20,   // 0.072
+	"qr-orthogonality":                  1000, // 4     max|QᵀQ-I| / (order u)
+	"qr-reconstruction":                 1000, // 3     max|A-QR| / (order u |A|_F)
+	"qr-differential":                   10,   // 0.0093 unit order u kappa
+	"org-matches-reflector-product":     300,  // 1
+	"orm-matches-reflector-product":     200,  // 0.65
+	"larft-triangular-factor":           200,  // 0.70
+	"larfb-matches-reflector-product":   200,  // 0.57
+	"larf-matches-definition":           200,  // 0.63
+	"larfg-orthogonal":                  300,  // 1.14
+	"larfg-annihilates":                 200,  // 0.85
+	"gels-normal-equations":             500,  // 1.79  max|opᵀ(B-op X)| / (p u |op|_F (|op|_F max|X| + max|B|))
+	"gels-minimum-norm":                 50,   // 0.073 unit q u kappa^2 max|X|
+	"gels-differential":                 10,   // 0.0036 unit max(p,q) u kappa^2 max|X|
+	"qp3-diagonal-blocked-vs-unblocked": 10,   // 0.018 max of abs(abs(r_ii) - abs(r_ii unblocked)) / (m u norm_F(A)), identical pivot sequences only
+	"lacn2-underestimate":               100,  // 1     (||A||_1 / est) / n, empirical side of the Dlacn2 check
 }
